@@ -383,21 +383,26 @@ def suText (su : Option (List Nat)) : Str :=
 /-- `su_size`: `strlen(su_buf)` (0 for an exact number) -/
 def suSize (su : Option (List Nat)) : Nat := match su with | none => 0 | some d => d.length
 
+/-- `total_chars` of format_text_decimal (terminator included) -/
+def decimalChars (neg : Bool) (digits : List Nat) (su : Option (List Nat)) (scale : Nat) : Nat :=
+  (if neg then 1 else 0) + (if digits.length ≤ scale then scale + 1 else digits.length)
+    + (if scale = 0 then 0 else 1) + (if suSize su > 0 then suSize su + 2 else 0) + 1
+
+/-- the characters format_text_decimal writes between the sign and the su -/
+def decimalBody (digits : List Nat) (scale : Nat) : Str :=
+  if digits.length ≤ scale then
+    -- whole_digits <= 0: "0." and leading zeroes
+    UCHAR_0 :: UCHAR_DECIMAL :: (List.replicate (scale - digits.length) UCHAR_0 ++ digitChars digits)
+  else
+    digitChars (digits.take (digits.length - scale)) ++ (if scale > 0 then [UCHAR_DECIMAL] else [])
+      ++ digitChars (digits.drop (digits.length - scale))
+
+def signChars (neg : Bool) : Str := if neg then [UCHAR_MINUS] else []
+
 /-- `format_text_decimal`; `none` = CIF_ARGUMENT_ERROR (text longer than a line).  Requires `scale ≥ 0`. -/
 def formatDecimal (neg : Bool) (digits : List Nat) (su : Option (List Nat)) (scale : Nat) : Option Str :=
-  let valDigits := digits.length
-  let totalChars := (if neg then 1 else 0) + (if valDigits ≤ scale then scale + 1 else valDigits)
-      + (if scale = 0 then 0 else 1) + (if suSize su > 0 then suSize su + 2 else 0) + 1
-  if totalChars ≤ CIF_LINE_LENGTH + 1 then
-    let sign : Str := if neg then [UCHAR_MINUS] else []
-    let body : Str :=
-      if valDigits ≤ scale then
-        -- whole_digits <= 0: "0." and leading zeroes
-        UCHAR_0 :: UCHAR_DECIMAL :: (List.replicate (scale - valDigits) UCHAR_0 ++ digitChars digits)
-      else
-        let whole := valDigits - scale
-        digitChars (digits.take whole) ++ (if scale > 0 then [UCHAR_DECIMAL] else []) ++ digitChars (digits.drop whole)
-    some (sign ++ body ++ suText su)
+  if decimalChars neg digits su scale ≤ CIF_LINE_LENGTH + 1 then
+    some (signChars neg ++ decimalBody digits scale ++ suText su)
   else none
 
 /-- `exponent_digits` decimal digits of `n`, zero padded (the loop `*(c + i) = (msp % 10) + '0'; msp /= 10`) -/
@@ -405,22 +410,33 @@ def padDigits : Nat → Nat → Str
   | 0, _ => []
   | k + 1, n => padDigits k (n / 10) ++ [n % 10 + UCHAR_0]
 
+/-- `most_significant_place` of format_text_sci -/
+def sciMsp (digits : List Nat) (scale : Int) : Int :=
+  ((if digits.length > 0 then digits.length - 1 else 0 : Nat) : Int) - scale
+
+/-- `exponent_digits`: `((int) log10(abs(msp) + 0.5)) + 1`, at least 2 -/
+def sciExpDigits (digits : List Nat) (scale : Int) : Nat := max 2 (decDigits (sciMsp digits scale).natAbs).length
+
+/-- `total_chars` of format_text_sci -/
+def sciChars (neg : Bool) (digits : List Nat) (su : Option (List Nat)) (scale : Int) : Nat :=
+  (if neg then 1 else 0) + (if digits.length > 1 then digits.length + 1 else 1) + sciExpDigits digits scale + 2
+    + (if suSize su > 0 then suSize su + 2 else 0) + 1
+
+/-- the value digits of format_text_sci: first digit, and the rest behind a point -/
+def sciMant (digits : List Nat) : Str :=
+  match digits with
+  | [] => [UCHAR_0]
+  | d :: rest => (d + UCHAR_0) :: (if rest = [] then [] else UCHAR_DECIMAL :: digitChars rest)
+
+/-- the exponent field `e±dd` -/
+def sciExp (digits : List Nat) (scale : Int) : Str :=
+  UCHAR_e :: (if sciMsp digits scale < 0 then UCHAR_MINUS else UCHAR_PLUS)
+    :: padDigits (sciExpDigits digits scale) (sciMsp digits scale).natAbs
+
 /-- `format_text_sci`; `none` = CIF_ARGUMENT_ERROR -/
 def formatSci (neg : Bool) (digits : List Nat) (su : Option (List Nat)) (scale : Int) : Option Str :=
-  let valDigits := digits.length
-  let msp : Int := ((if valDigits > 0 then valDigits - 1 else 0 : Nat) : Int) - scale
-  -- ((int) log10(abs(msp) + 0.5)) + 1, at least 2
-  let expDigits := max 2 (decDigits msp.natAbs).length
-  let totalChars := (if neg then 1 else 0) + (if valDigits > 1 then valDigits + 1 else 1) + expDigits + 2
-      + (if suSize su > 0 then suSize su + 2 else 0) + 1
-  if totalChars ≤ CIF_LINE_LENGTH + 1 then
-    let sign : Str := if neg then [UCHAR_MINUS] else []
-    let mant : Str :=
-      match digits with
-      | [] => [UCHAR_0]
-      | d :: rest => (d + UCHAR_0) :: (if rest = [] then [] else UCHAR_DECIMAL :: digitChars rest)
-    let esign := if msp < 0 then UCHAR_MINUS else UCHAR_PLUS
-    some (sign ++ mant ++ UCHAR_e :: esign :: padDigits expDigits msp.natAbs ++ suText su)
+  if sciChars neg digits su scale ≤ CIF_LINE_LENGTH + 1 then
+    some (signChars neg ++ sciMant digits ++ sciExp digits scale ++ suText su)
   else none
 
 /-! ### cif_value_init_numb / cif_value_autoinit_numb
